@@ -109,8 +109,10 @@ _c = _K("ResNetwork.local_admittive_clustering[formula]", _RN, lang="py", func="
                      "all(ac[q]==ite(DG[q]==1, 0.0, LT(q,self.N)/(AD[q]*(DG[q]-1))) for q in range(i))"],
                "i.j": ["dummy==LT(i,j)"],
                "i.j.k": ["dummy==LU(i,j,k)"]},
+        # (a node with vanishing admittive degree has the value x/0: not part of the clause evaluated at run time)
         ensures=["shape(result,0)==self.N",
-                 "all(result[q]==ite(DG[q]==1, 0.0, LT(q,self.N)/(AD[q]*(DG[q]-1))) for q in range(self.N))"],
+                 "all(implies(DG[q]==1 or AD[q]*(DG[q]-1)!=0, "
+                 "result[q]==ite(DG[q]==1, 0.0, LT(q,self.N)/(AD[q]*(DG[q]-1)))) for q in range(self.N))"],
         checks=("shape", "bounds"))
 _c.region = "body"
 _c.required_asserts = []
@@ -130,7 +132,8 @@ _NSI_RQ = ["self.N>=1", "shape(PL,0)==self.N and shape(PL,1)==self.N", "shape(se
 _NSI_CF = {"self.path_lengths": {"returns": "arr:float64:2", "ensures": ["same_array(result, PL)", "shape(result,0)==self.N and shape(result,1)==self.N"]}}
 for _nm, _rq, _ens in (
         ("nsi_closeness", [],       # (a quotient on both sides: no assumption on the divisor is needed)
-         [f"all(result[q]==self.total_node_weight/fsum(lambda j: {_DS}*self.node_weights[j], self.N) for q in range(self.N))"]),
+         [f"all(implies(fsum(lambda j: {_DS}*self.node_weights[j], self.N)!=0, "
+          f"result[q]==self.total_node_weight/fsum(lambda j: {_DS}*self.node_weights[j], self.N)) for q in range(self.N))"]),
         ("nsi_harmonic_closeness", [f"all({_DS}!=0 for q in range(self.N) for j in range(self.N))", "self.total_node_weight!=0"],
          [f"all(result[q]*self.total_node_weight==fsum(lambda j: 1.0/{_DS}*self.node_weights[j], self.N) for q in range(self.N))"])):
     _c = _K(f"Network.{_nm}[formula]", _NW, lang="py", func=f"Network.{_nm}", props=("C03", "C02"), py_mode=True, vectors=True,
